@@ -8,6 +8,10 @@ CONSTANTS
   MaxReq = 3
   MaxBatch = 1
   Hist = FALSE
+  Reps = {1}
+  CountHist = FALSE
+  GenBug = FALSE
+  GenMod = 256
   Deliveries = {"single"}
   SplitReg = TRUE
 INVARIANTS TypeOK Partition
